@@ -471,8 +471,27 @@ fn put_bytes<W: Write>(w: &mut W, s: &str) -> fmt::Result {
 }
 
 /// ` w h p_0 ... p_{w*h-1}` (row-major), each integer preceded by a space.
+/// VERIF_IMAGE_DIGEST=<n>: an image with more than n pixels is printed as `w h -1 lo hi` (lo, hi: the two 31-bit halves
+/// of an FNV-1a hash of its pixels) instead of w * h pixel words.  Only the C05 walk sets it, for the canvases of
+/// several million pixels that corrupted size fields produce; two builds still have to agree on the digest.
+fn image_digest_limit() -> Option<u64> {
+    static LIMIT: std::sync::OnceLock<Option<u64>> = std::sync::OnceLock::new();
+    *LIMIT.get_or_init(|| std::env::var("VERIF_IMAGE_DIGEST").ok().and_then(|v| v.parse().ok()))
+}
+
 fn put_img<W: Write>(w: &mut W, img: &RgbaImage) -> fmt::Result {
     write!(w, " {} {}", img.width(), img.height())?;
+    if let Some(n) = image_digest_limit() {
+        if img.width() as u64 * img.height() as u64 > n {
+            let mut h: u64 = 0xcbf29ce484222325;
+            for p in img.pixels() {
+                for b in p.0 {
+                    h = (h ^ b as u64).wrapping_mul(0x100000001b3);
+                }
+            }
+            return write!(w, " -1 {} {}", h & 0x7fff_ffff, (h >> 32) & 0x7fff_ffff);
+        }
+    }
     // `pixels()` iterates row by row, left to right.
     for p in img.pixels() {
         write!(w, " {}", pix(p))?;
